@@ -159,6 +159,47 @@ def judge(ctx, cfg, pred, ref, tag, out, ip, ir, ties, mr, hist=()):
             ctx.violation("result differs from the documented definitions: " + "; ".join(d[:3]), {**case, "observed": r, "differences": d})
 
 
+def own_pairs(pred, ref):
+    """the (reference, prediction) label pairs sharing a voxel, counted voxel by voxel in Python integers"""
+    return sorted({(int(r), int(p)) for p, r in zip(pred.reshape(-1).tolist(), ref.reshape(-1).tolist()) if p and r})
+
+
+def pair_codes_case(ctx, pred, ref):
+    """candidate discovery on labels so far apart that pred * (max_ref + 1) + ref passes 2^53 (still below 2^64): the answer is a matter
+    of which labels share a voxel, whatever their magnitude; called directly because a lookup-table relabelling of such labels needs GBs"""
+    from panoptica._functionals import _calc_overlapping_labels
+    want = own_pairs(pred, ref)
+    refl = tuple(sorted({int(x) for x in ref.reshape(-1).tolist() if x}))
+    case = {"mode": "pair_codes", "pred": pred, "ref": ref}
+    ctx.count({"pair_codes": [pred.tolist(), ref.tolist()]}, len(want) >= 1)
+    if not refl:
+        return
+    try:
+        got = sorted((int(a), int(b)) for a, b in _calc_overlapping_labels(pred.copy(), ref.copy(), refl))
+    except Exception as e:
+        ctx.violation("candidate discovery raised " + repr(e)[:120], case)
+        return
+    if got != want:
+        ctx.violation(f"candidate pairs (reference, prediction) {got[:4]} but the labels sharing a voxel are {want[:4]}", {**case, "observed": got, "expected": want})
+
+
+def far_labels(ctx):
+    rng = ctx.rng
+    for _ in range(ctx.scale(60, 600)):
+        shape = rng.choice([(6,), (3, 4), (4, 4), (2, 3, 3)])
+        dt = rng.choice(["uint32", "uint64", "uint64"])      # instance pairs only carry unsigned arrays (processing_pair dtype check)
+        top = 31 if dt == "uint32" else rng.choice([31, 40, 45])
+        n = int(np.prod(shape))
+        def labels(k, bits):
+            return [rng.choice([rng.randint(1, 9), 2 ** rng.randint(min(12, bits), bits) + rng.randint(0, 9), 2 ** bits - rng.randint(1, 9)]) for _ in range(k)]
+        rbits = rng.randint(16, min(top, 62 - top))
+        pl, rl = labels(rng.randint(1, 3), top), labels(rng.randint(1, 3), rbits)
+        pred = np.array([rng.choice([0] + pl) for _ in range(n)], dt).reshape(shape)
+        ref = np.array([rng.choice([0] + rl) for _ in range(n)], dt).reshape(shape)
+        ctx.bump("pair codes / " + ("beyond 2^53" if int(pred.max()) * (int(ref.max()) + 1) >= 2 ** 53 else "below 2^53"))
+        pair_codes_case(ctx, pred, ref)
+
+
 def run(ctx):
     common.serial_pool()
     rng = ctx.rng
@@ -166,6 +207,9 @@ def run(ctx):
     if cdir.exists():
         for f in sorted(cdir.glob("*.json")):
             d = json.loads(f.read_text())
+            if d.get("mode") == "pair_codes":
+                pair_codes_case(ctx, common.arr_from_json(d["pred"]), common.arr_from_json(d["ref"]))
+                continue
             one_case(ctx, d["cfg"], common.arr_from_json(d["pred"]), common.arr_from_json(d["ref"]), "corpus")
     # D5 / D6 witnesses
     a = np.zeros((1, 8), np.uint8); a[0, 1:3] = 128; a[0, 5:7] = 3
@@ -261,6 +305,10 @@ def run(ctx):
                     fl[rng.randrange(fl.size)] = rng.choice([0, 1, 2])
             one_case(ctx, cfg, p, r, "reused", chain=ch)
     flush(ctx)
+    far_labels(ctx)
+    for mm in pipeline.DEFINITION_MISMATCHES[:5]:
+        ctx.violation(f"ASSD of matched instance {mm['label']} is {mm['implementation_assd']!r}, the definition gives {mm['definition_assd']!r}", mm)
+    del pipeline.DEFINITION_MISMATCHES[:]
     tr = pipeline.TRIPLES[:: max(1, len(pipeline.TRIPLES) // 50)][:60]
     n, bad = coq_crosscheck("C01", tr)
     ctx.crosschecked = n
@@ -274,10 +322,18 @@ def replay(path):
     d = json.loads(open(path).read())
     pred, ref = common.arr_from_json(d["pred"]), common.arr_from_json(d["ref"])
     ctx = common.Ctx("C01", "quick", 0)
+    if d.get("mode") == "pair_codes":
+        pair_codes_case(ctx, pred, ref)
+        for w, r in ctx.violations:
+            print("VIOLATION:", w)
+        return 1 if ctx.violations else 0
     for h in d.get("history", []):
         one_case(ctx, d["cfg"], common.arr_from_json(h["pred"]), common.arr_from_json(h["ref"]), "replay", chain=0)
     one_case(ctx, d["cfg"], pred, ref, "replay", chain=0)
     flush(ctx)
+    for mm in pipeline.DEFINITION_MISMATCHES[:5]:
+        ctx.violation(f"ASSD of matched instance {mm['label']} is {mm['implementation_assd']!r}, the definition gives {mm['definition_assd']!r}", mm)
+    del pipeline.DEFINITION_MISMATCHES[:]
     ev = impl.make_evaluator(d["cfg"])
     for h in d.get("history", []):
         impl.evaluate(ev, common.arr_from_json(h["pred"]), common.arr_from_json(h["ref"]))
